@@ -254,6 +254,11 @@ def judge_all(res, cfg, h, kind, val, n):
             add_violation(res, f"C09:read_all-phantom:{bname}:{r[1]}", f"{cfg}: {r[1]} reported although a location is unimplemented", case)
     if h.data_writes:
         add_violation(res, f"C09:read_all-modified-memory:{bname}", f"{cfg}: data locations changed", case)
+    if not use_latch and h.bank.writes:
+        # no latch function (or none requested): a read must not write to the unit at all - the lock byte included
+        add_violation(res, f"C09:read_all-writes-without-latch:{bname}",
+                      f"{cfg}: bank {number} {'has no latch function' if not h.bank.has_latch else 'was read with use_latch=False'} but read_all wrote "
+                      f"{[(hex(l), hex(v)) for l, v in h.bank.writes[:4]]} (lock byte {cfg.get('lock_byte', 0xFF):#x} -> {h.bank.cells[2]:#x})", case)
     if h.bank.cells[2] == 0xAA or h.bank.snapshot is not None:
         add_violation(res, f"C09:read_all-left-latched:{bname}", f"{cfg}: bank {number} is still latched (lock byte {h.bank.cells[2]:#x}) after read_all returned", case)
     return "ok"
